@@ -3,6 +3,7 @@
   consumption pattern.  Theorems about the model; tied to /repo by `bin/check C02`.
 -/
 import AnyVecModel.Proofs.Splice
+import AnyVecModel.Proofs.KernelRange
 import AnyVecModel.Props.Hist
 namespace AnyVec
 namespace C02
@@ -199,6 +200,18 @@ theorem history_splice_core (cfg : Cfg) (w : World) (hr : Hist.Reach cfg w) (v :
     (runStep cfg (.splice v lo hi typed repl claim eats fin) f w).1.Inv ∧
       (runStep cfg (.splice v lo hi typed repl claim eats fin) f w).2.notUb :=
   Hist.runStep_inv cfg (.splice v lo hi typed repl claim eats fin) f w (Hist.reach_inv_core cfg w hr) hrepl ⟨hv, hc⟩
+
+/-! ### tie to the source text -/
+
+/-- **source tie**: the model's `intoRange` is the `into_range` of `/repo/src/lib.rs` as re-translated on this
+run (`Gen/Kernel.lean`): same bound arithmetic, same checked additions, same asserts in the same order. -/
+theorem into_range_is_the_source (len : Nat) (lo hi : Bnd) :
+    Gen.Kernel.into_range len lo hi =
+      match intoRange len lo hi with
+      | .ok (s, e) => .ok (.ret2 s e)
+      | .panic m => .panic m
+      | .ub m => .ub m :=
+  KernelTie.into_range_tie len lo hi
 
 end C02
 end AnyVec
